@@ -60,3 +60,25 @@ func ZZ_C09_F5_FileContents() {
 		zzv.Assert(v == t.value, "F5.plain_integer_value")
 	}
 }
+
+//zzv:bound F6 = the real WriteIntToFile / WriteIntToFileAtomic bodies (every PWM and mode write goes through them; elsewhere they are the device-file model) followed by the real ReadIntFromFile, for 12 concrete values (-1, 0, 1, 9, 10, 42, 99, 100, 128, 254, 255, 256): no panic, no error, and the file reads back as the value written
+
+var zzWriteValues = []int{-1, 0, 1, 9, 10, 42, 99, 100, 128, 254, 255, 256}
+
+func ZZ_C09_F6_WriteThenRead() {
+	zzv.RealFileIO()
+	path := zzv.TempDir("dev") + "/pwm1"
+	zzv.FileText(path, "7\n")
+	v := zzWriteValues[zzv.Choice("value", len(zzWriteValues))]
+	var err error
+	if zzv.Choice("atomic", 2) == 1 {
+		err = WriteIntToFileAtomic(v, path)
+	} else {
+		err = WriteIntToFile(v, path)
+	}
+	zzv.Assert(err == nil, "F6.write_succeeds")
+	back, rerr := ReadIntFromFile(path)
+	zzv.Record("readBack", back)
+	zzv.Assert(rerr == nil, "F6.written_file_is_readable")
+	zzv.Assert(back == v, "F6.reads_back_as_written")
+}
